@@ -45,7 +45,17 @@ def roundtrip(case):
     check(text2 == text, "second-dump-differs", lambda: "first and second dump differ: %s" % diff(json.loads(text), json.loads(text2)))
     d = diff(imm.expected_doc(desc), json.loads(text))
     check(d is None, "document-differs-from-description", lambda: "expected document vs dumps(): %s" % d)
-    poison(obj), poison(again)
+    # the manifest that was just written is changed through its images' attributes and written again
+    desc2 = must("modify-existing-manifest", imm.modify_images, desc, obj)
+    text3 = must("dumps-after-change", obj.dumps)
+    third = Images()
+    must("loads-after-change", third.loads, text3)
+    want2, got2 = imm.expected_cells(desc2), {k: v for k, v in imm.snap_cells(third).items() if v}
+    check(want2 == got2, "cells-differ-after-change", lambda: "manifest written, changed in place and written again: re-read cells differ from the changed description: %r" % (
+        [k for k in want2 if want2.get(k) != got2.get(k)][:2],))
+    d = diff(imm.expected_doc(desc2), json.loads(text3))
+    check(d is None, "document-differs-after-change", lambda: "expected document vs dumps() after an in-place change: %s" % d)
+    poison(obj), poison(again), poison(third)
     return {"nontrivial": imm.is_nontrivial(desc), "labels": imm.labels(desc)}
 
 
